@@ -9,16 +9,16 @@ import os
 import vlib
 
 CONSTS = {
-    "quick": {"MaxLen": "4", "MaxLenW": "3", "MaxBytes": "3", "MaxMove": "5", "WideHi": "767"},
-    "thorough": {"MaxLen": "5", "MaxLenW": "4", "MaxBytes": "4", "MaxMove": "7", "WideHi": "8191"},
+    "quick": {"MaxLen": "4", "MaxLenB": "4", "MaxLenW": "3", "MaxBytes": "3", "MaxMove": "5", "WideHi": "767", "LawLen": "4"},
+    "thorough": {"MaxLen": "5", "MaxLenB": "4", "MaxLenW": "4", "MaxBytes": "4", "MaxMove": "7", "WideHi": "8191", "LawLen": "4"},
 }
-CHUNKS = {"quick": 8, "thorough": 64}
+CHUNKS = {"quick": 12, "thorough": 48}
 RANDOM = {"quick": 150, "thorough": 3000}
 
 
 def model(tier, rep):
     r = vlib.tlc_mc("CLib.tla", "CLib.cfg", "clib_mc_" + tier, workers=10 if tier == "quick" else 14,
-                    constants=CONSTS[tier], heap="3g", timeout=2400)
+                    constants=CONSTS[tier], heap="2g", timeout=2400)
     rep.add_mc("CLib", r)
     gen = r["gen"]
     if not gen:
@@ -74,14 +74,14 @@ def pipeline(tier, rep, calibrate=True):
         bins = fb.result()
     traces, unsupported = execute(tier, gens, bins, "etl")
     par = 6 if tier == "quick" else 8
-    tv = vlib.tv_parallel("CLibTrace.tla", "CLibTrace.cfg", traces, "clib_tv_etl_" + tier, par=par, heap="2g")
+    tv = vlib.tv_parallel("CLibTrace.tla", "CLibTrace.cfg", traces, "clib_tv_etl_" + tier, par=par, heap="1500m")
     rep.add_tv("CLib", tv, nvec + 2 * RANDOM[tier])
     for p in traces:    # every deviation carries its event; the traces themselves are not needed any more
         os.remove(p)
     rep.cov["modules"]["CLib"].update({"not_drivable": unsupported, "random_pairs_per_family": RANDOM[tier]})
     if calibrate:
         ctr, _ = execute(tier, gens, bins, "std")
-        ctv = vlib.tv_parallel("CLibTrace.tla", "CLibTrace.cfg", ctr, "clib_tv_std_" + tier, par=par, heap="2g")
+        ctv = vlib.tv_parallel("CLibTrace.tla", "CLibTrace.cfg", ctr, "clib_tv_std_" + tier, par=par, heap="1500m")
         if ctv["deviations"]:
             d = ctv["deviations"][0]
             raise vlib.ModelFailure("calibration: glibc deviates from CLibOps (spec/projection error): %s %s"
